@@ -415,6 +415,13 @@ pub struct C12 {
     rabbit_steps: u64,
 }
 impl Monitor for C12 {
+    fn twin_kinds(&self) -> u8 {
+        1
+    }
+    fn on_twin_state(&mut self, _kind: u8, o: &Obs, s: &mut Sink) {
+        // nothing judged in on_state depends on the history the twin was given
+        self.on_state(o, s);
+    }
     fn on_state(&mut self, o: &Obs, s: &mut Sink) {
         let sh = o.sh;
         self.states += 1;
